@@ -479,9 +479,14 @@ func runPlain(ctx *bex.Ctx) {
 		return g
 	}
 	gSeq, gPar := mk(false), mk(true)
-	ctx.Space("plain-build-conformance")
+	if !ctx.Race {
+		ctx.Space("plain-build-conformance")
+	}
 	var idx int64
 	enumerate(true, func(sc scenario) {
+		if ctx.Race && sc.N < 12 && !strings.Contains(sc.Src, "merge") && !strings.Contains(sc.Src, "multiUse") {
+			return // no goroutines: nothing for the race detector
+		}
 		idx++
 		if !ctx.Mine(idx) || ctx.Expired() {
 			return
@@ -506,11 +511,29 @@ func runPlain(ctx *bex.Ctx) {
 		}
 		ctx.Nontrivial("plain|" + sc.Src + fmt.Sprint(sc.N))
 		ctx.Outcome("plain:" + strings.SplitN(sc.Family, ":", 2)[0])
+		if ctx.Race {
+			// free-running -race build: the Go race detector sees all memory, also what the controlled
+			// scheduler's hooks do not cover; a report is always a true positive
+			ctx.Add("race_build_runs", 2)
+			if rep := ctx.RaceReports(); rep != "" {
+				finding := ""
+				if strings.Contains(rep, "value.(*List).Eval") {
+					finding = "F11-lazy-constant-materialisation-race"
+				}
+				if len(rep) > 2500 {
+					rep = rep[:2500] + "…"
+				}
+				ctx.Violate("the Go race detector reports a data race (free-running -race build)", map[string]any{"family": sc.Family, "src": sc.Src, "n": sc.N, "plain": true, "racebuild": true}, "no report", rep, finding)
+			}
+		}
 	})
 	ctx.SpaceDone("every quick-tier scenario evaluated twice on the plain build with a really sleeping slow() (parallel) against the identity slow() (sequential)")
 }
 
 func run(ctx *bex.Ctx) {
+	if ctx.Race {
+		ctx.Space("race-detector-pass")
+	}
 	if !ctx.Coop {
 		runPlain(ctx)
 		return
@@ -684,7 +707,7 @@ func main() {
 			"virtual time: only the host function slow() costs time (300us); time.After fires only when nothing else is enabled; no closure call takes 5s of real time",
 			"runtime.NumCPU is the harness' worker count W; W=1 (the library's own sequential fallback) defines the sequential reference for map/accept; merge and multiUse references are computed from separately forced operands"},
 		QuickBudget: 70e9, ThoroughBudget: 28 * 60e9,
-		Workers: 4, CoopWorkers: 12,
+		Workers: 2, CoopWorkers: 10, RaceWorkers: 4,
 		Run:    run,
 		Replay: replay,
 	})
